@@ -5,6 +5,7 @@ import (
 	"fmt"
 	"math"
 	"net/url"
+	"reflect"
 	"sort"
 	"sync"
 
@@ -17,8 +18,11 @@ import (
 type universe struct {
 	rootJSON string
 	baseURI  string
-	remote   map[string]string // uri text -> document JSON
-	faults   map[string]bool   // uri text -> loader returns an error
+	remote   map[string]string             // uri text -> document JSON
+	faults   map[string]bool               // uri text -> loader returns an error
+	docURIs  []string                      // docs[i].uri as text (index 0 = the root document)
+	rootObj  *jsonschema.Schema            // the object Resolve was called on
+	served   map[string]*jsonschema.Schema // uri text -> the object the Loader handed out
 }
 
 func universeOf(c map[string]any) *universe {
@@ -32,6 +36,7 @@ func universeOf(c map[string]any) *universe {
 	for i, d := range docs {
 		dm := abs.Obj(d)
 		uri := abs.URIText(dm["uri"])
+		u.docURIs = append(u.docURIs, uri)
 		if i == 0 {
 			u.rootJSON = abs.SchemaJSON(dm["s"])
 			u.baseURI = uri
@@ -67,6 +72,12 @@ func (u *universe) loader(log *loadLog) jsonschema.Loader {
 		if err := json.Unmarshal([]byte(doc), &s); err != nil {
 			return nil, fmt.Errorf("verif loader: %s: %w", key, err)
 		}
+		log.mu.Lock()
+		if u.served == nil {
+			u.served = map[string]*jsonschema.Schema{}
+		}
+		u.served[key] = &s
+		log.mu.Unlock()
 		return &s, nil
 	}
 }
@@ -81,6 +92,7 @@ func (u *universe) resolve(log *loadLog) (*jsonschema.Resolved, error, string) {
 	if len(u.remote) > 0 || len(u.faults) > 0 {
 		opts.Loader = u.loader(log)
 	}
+	u.rootObj = &s
 	rs, err := s.Resolve(opts)
 	if err != nil {
 		return nil, err, "resolve"
@@ -152,6 +164,12 @@ func runEval(hdr Header, c any, src string) CaseResult {
 	if f := checkLoads(u, log, cm, src, c); f != nil {
 		res.Failures = append(res.Failures, *f)
 	}
+	// the resolver's final table against L0: every reference of every needed document points at exactly the
+	// designated Schema object, and is marked dynamic exactly when L0 says so
+	if f := checkTargets(u, rs, cm, src, c); f != nil {
+		res.Failures = append(res.Failures, *f)
+	}
+	res.Evals += len(abs.Seq(cm["targets"]))
 	sawT, sawF := false, false
 	var sampleInst []any
 	for i, e := range exp {
@@ -309,4 +327,94 @@ func negZeros(v any, limit int) (any, bool) {
 		return v, false
 	}
 	return walk(v)
+}
+
+// goField maps an abstract keyword to the Schema field that holds it.
+var goField = map[string]string{
+	"items": "Items", "itemsArray": "ItemsArray", "additionalItems": "AdditionalItems", "contains": "Contains",
+	"unevaluatedItems": "UnevaluatedItems", "additionalProperties": "AdditionalProperties", "propertyNames": "PropertyNames",
+	"unevaluatedProperties": "UnevaluatedProperties", "not": "Not", "if": "If", "then": "Then", "else": "Else",
+	"contentSchema": "ContentSchema", "prefixItems": "PrefixItems", "allOf": "AllOf", "anyOf": "AnyOf", "oneOf": "OneOf",
+	"properties": "Properties", "patternProperties": "PatternProperties", "dependentSchemas": "DependentSchemas",
+	"depSchemas": "DependencySchemas", "defs": "Defs", "definitions": "Definitions",
+}
+
+// nodeAt walks an abstract path (SchemaDoc segments) through a Schema object.
+func nodeAt(root *jsonschema.Schema, path any) *jsonschema.Schema {
+	cur := root
+	for _, seg := range abs.Seq(path) {
+		if cur == nil {
+			return nil
+		}
+		sm := abs.Obj(seg)
+		k := sm["k"].(string)
+		fv := reflect.ValueOf(cur).Elem().FieldByName(goField[k])
+		if !fv.IsValid() {
+			return nil
+		}
+		switch {
+		case sm["i"] != nil:
+			i := abs.Int(sm["i"]) - 1
+			if fv.Kind() != reflect.Slice || i >= fv.Len() {
+				return nil
+			}
+			cur, _ = fv.Index(i).Interface().(*jsonschema.Schema)
+		case sm["n"] != nil:
+			name := sm["n"].(string)
+			if k == "patternProperties" {
+				name = abs.Pat(name)
+			} else {
+				name = abs.Str(name)
+			}
+			mv := fv.MapIndex(reflect.ValueOf(name))
+			if !mv.IsValid() {
+				return nil
+			}
+			cur, _ = mv.Interface().(*jsonschema.Schema)
+		default:
+			cur, _ = fv.Interface().(*jsonschema.Schema)
+		}
+	}
+	return cur
+}
+
+func (u *universe) docObj(d int) *jsonschema.Schema {
+	if d == 1 {
+		return u.rootObj
+	}
+	if d-1 < len(u.docURIs) {
+		return u.served[u.docURIs[d-1]]
+	}
+	return nil
+}
+
+// checkTargets compares CASE.targets ([{d, p, kind, t: {d, p}, dyn}]) with the Resolved's own table.
+func checkTargets(u *universe, rs *jsonschema.Resolved, cm map[string]any, src string, c any) *Failure {
+	for _, e := range abs.Seq(cm["targets"]) {
+		em := abs.Obj(e)
+		tm := abs.Obj(em["t"])
+		from := nodeAt(u.docObj(abs.Int(em["d"])), em["p"])
+		want := nodeAt(u.docObj(abs.Int(tm["d"])), tm["p"])
+		if from == nil || want == nil {
+			continue // the harness cannot locate the node (a document that was never loaded): nothing to compare
+		}
+		ref, dyn, anchor := rs.VerifRefTarget(from)
+		got := ref
+		if em["kind"] == "dyn" {
+			got = dyn
+			if anchor != "" { // re-bound at evaluation time: the table keeps the lexical target separately
+				got = rs.VerifDynamicRefInitial(from)
+			}
+		}
+		wantDyn, _ := em["dyn"].(bool)
+		if got != want || (em["kind"] == "dyn" && (anchor != "") != wantDyn) {
+			gj, _ := json.Marshal(got)
+			wj, _ := json.Marshal(want)
+			return &Failure{Kind: "ref-target", Source: src, Abstract: c,
+				Concrete: map[string]any{"schema": u.concrete(), "reference_at": abs.PathPointer(em["p"]), "in_document": em["d"], "kind": em["kind"]},
+				Expected: map[string]any{"designates": json.RawMessage(wj), "at": abs.PathPointer(tm["p"]), "in_document": tm["d"], "dynamic": wantDyn},
+				Got:      map[string]any{"resolved_to": json.RawMessage(gj), "same_object": got == want, "dynamic": anchor != ""}}
+		}
+	}
+	return nil
 }
